@@ -196,6 +196,10 @@ func ExtractSerializedContainer(data []byte) (int, []byte, error) {
 	_, err := validateSerializedContainer(data)
 	if err == nil {
 		length := binary.LittleEndian.Uint64(data[len(TagBegin) : len(TagBegin)+SerializedContainerLengthSize])
+		// declared length of the container is taken from the data itself and can't be trusted
+		if length < uint64(SerializedContainerMinSize) || length > uint64(len(data)) {
+			return 0, nil, ErrIncorrectSerializedContainer
+		}
 		return int(length), data, nil
 	}
 
